@@ -1559,6 +1559,12 @@ register_block_touches_hole(RegisterTable *t, RegisterAddress addr,
 {
     RegisterAccess rv = REG_ACCESS_RESULT_INIT;
     RegisterOffset rest = n;
+
+    if (BIT_ISSET(t->flags, REG_TF_INITIALISED) == false) {
+        rv.code = REG_ACCESS_UNINITIALISED;
+        return rv;
+    }
+
     while (rest > 0) {
         RegisterArea *a;
         RegisterOffset used;
@@ -1583,6 +1589,11 @@ register_set_from_hexstr(RegisterTable *t, const RegisterAddress start,
                          const char *str, const size_t n)
 {
     RegisterAccess rv = REG_ACCESS_RESULT_INIT;
+
+    if (BIT_ISSET(t->flags, REG_TF_INITIALISED) == false) {
+        rv.code = REG_ACCESS_UNINITIALISED;
+        return rv;
+    }
 
     for (size_t idx = 0; idx < n; idx += 4u) {
         const char *cur = str+idx;
